@@ -137,8 +137,8 @@ func seqSample(r *core.Run, members []*seqMember) ([]genInput, map[string]string
 			rs = append(rs, m)
 		}
 	}
-	ds, nd := coverSample(d, rng, r.Pick(10, 600))
-	rsS, nr := coverSample(rs, rng, r.Pick(0, 200))
+	ds, nd := coverSample(d, rng, r.Pick(10, 300))
+	rsS, nr := coverSample(rs, rng, r.Pick(0, 100))
 	r.Set("seq_families", map[string]int{"dseq_members": len(d), "dseq_labels": nd, "dseq_sampled": len(ds), "rseq_members": len(rs), "rseq_labels": nr, "rseq_sampled": len(rsS)})
 	var in []genInput
 	fam := map[string]string{}
